@@ -1,3 +1,3 @@
 From Coq Require Extraction ExtrOcamlBasic.
 From V Require Import Model.C09.
-Extraction "c09model.ml" compile_prog prog_fuel predict go_line_of nodupb func_names wf_prog.
+Extraction "c09model.ml" compile_prog prog_fuel predict go_line_of nodupb func_names wf_prog rel_path.
